@@ -41,7 +41,9 @@ func init() {
 			return sc
 		}
 
-		return genFOBase(r, foShape{minClients: 1, maxClients: 6, maxKeys: 3, maxOps: 4, sleeps: true, skipRead: true, faults: true, ctxTTL: false})
+		// a quarter of the random runs: callers also rewrite / reuse their key buffers after Get returned
+		// (a result that lands under another key is a value "belonging to another key")
+		return genFOBase(r, foShape{minClients: 1, maxClients: 6, maxKeys: 3, maxOps: 4, sleeps: true, skipRead: true, faults: true, ctxTTL: false, callerTricks: run%8 == 0})
 	}
 	gens["C04"] = func(r *rand.Rand, _ int, _ string) *Scenario {
 		sc := genFOBase(r, foShape{minClients: 1, maxClients: 5, maxKeys: 3, maxOps: 4, sleeps: true, skipRead: true, faults: true, callerTricks: true})
